@@ -255,3 +255,44 @@ func VerifC38_LoadBlobHealthy() {
 		verifrt.Reach("hit")
 	}
 }
+
+// VerifC38_LoadRawHistory: two loads of the same index/snapshot file in one run. During the first
+// the backend may fail transiently (LoadRaw's own retry, Forget of a not yet cached file); between
+// the two loads the cache entry may get corrupted, truncated or removed; during the second load
+// repository and cache directory are healthy. The second load must return the repository's bytes and
+// leave the true bytes in the cache: a corrupted entry is detected and replaced even if this run has
+// already had trouble with the file.
+func VerifC38_LoadRawHistory() {
+	e, r, t, id := verifC38RawEnv()
+	e.VerifC38SlotKind(verifrt.Int("slot", 0, 3)) // first load: entry absent, correct, corrupted or truncated
+	e.BackendFaults = true
+	_, err1 := r.LoadRaw(context.Background(), t, id)
+	forgotBefore := e.SlotRemovals > 0 // a cache entry really was deleted in this run: the circuit breaker may be armed
+	if err1 != nil {
+		verifrt.Reach("first-load-failed")
+	}
+
+	e.BackendFaults = false
+	kind := verifrt.Int("slot2", 0, 4) // 0 removed, 1 correct, 2 corrupted, 3 truncated, 4 left as it is
+	if kind < 4 {
+		e.VerifC38SlotKind(kind)
+	}
+	n0 := len(e.Events)
+	buf, err := r.LoadRaw(context.Background(), t, id)
+	if forgotBefore {
+		// documented limit: a cached file is deleted at most once per run
+		verifrt.Reach("breaker-armed")
+		if err == nil {
+			verifrt.Assert(bytes.Equal(buf, e.True), "LoadRaw returned wrong bytes")
+		}
+		return
+	}
+	verifrt.Assert(err == nil, "LoadRaw fails on a healthy repository because of the state of the cache, although no cached file was deleted before in this run")
+	verifrt.Assert(bytes.Equal(buf, e.True), "LoadRaw returned wrong bytes")
+	present, now := e.Slot()
+	verifrt.Assert(present && bytes.Equal(now, e.True), "the cache entry was not (re)placed by the repository's bytes")
+	if kind == 2 || kind == 3 {
+		verifrt.Reach("damaged-entry-replaced-on-second-load")
+	}
+	_ = n0
+}
